@@ -14,6 +14,35 @@ def n1_guard(xs):
         out.append(x * 2)
     return out
 
+def n12_guard_work(xs):
+    out = []
+    for x in xs:
+        if x % 3 == 0:
+            out.append(-x)
+            continue
+        y = x * 2
+        out.append(y)
+    return out
+
+def n13_index_only(xs):
+    out = list(xs)
+    for j in range(len(out)):
+        out[j] = out[j] * 2 + j
+    return out
+
+def n13_resized(xs):
+    out = list(xs)
+    for j in range(len(out)):
+        if j == 0:
+            out.append(7)
+    return out
+
+def n14_ifexp(xs, p):
+    out = [None] * len(xs)
+    for i, x in enumerate(xs):
+        out[i] = 1 if x < p else 0
+    return out
+
 def n2_counter(xs):
     acc = []
     k = 0
@@ -152,11 +181,26 @@ def uses_try(xs, k):
 
 def uses_chain(x):
     return _chain(x) + _chain(x + 1)
+
+def _replace(store, item):
+    n = len(item)
+    if n > 1:
+        m = n * 2
+        return item + [m]
+    return [0]
+
+def uses_slot(rows, k):
+    rows[k] = _replace(rows, rows[k])
+    return rows
 '''
 
 INPUTS = {
     'n1_guard': [([],), ([1, 2, 3, 4, 5, 6, 9],)],
     'n2_counter': [([],), (['a', 'b', 'c'],)],
+    'n13_index_only': [([],), ([1, 2, 3],)],
+    'n13_resized': [([],), ([1, 2, 3],)],
+    'n14_ifexp': [([], 1), ([1, 2, 3, float('nan')], 2)],
+    'n12_guard_work': [([],), ([1, 2, 3, 4, 5, 6, 9],)],
     'n2_counter_read_after': [([],), ([1, 2, 3],)],
     'n10_index': [([],), (['a', 'b'],)],
     'n10_resized': [([1, 2],), ([],)],
@@ -174,6 +218,7 @@ INPUTS = {
     'uses_assign': [(11,), (7,), (1,)],
     'uses_arg': [(11, []), (1, ['z'])],
     'uses_chain': [(1,), (-3,)],
+    'uses_slot': [([[1, 2], [3]], 0), ([[1, 2], [3]], 1), ([[1]], 4)],
     'uses_try': [([1, 2], 1), ([1, 2], 5), ([], 0)],
 }
 
@@ -209,6 +254,15 @@ def run():
     f1 = next(f for f in norm.body if f.name == 'n10_resized')
     if 'range' not in ast.unparse(f1):
         problems.append(('side-condition', 'n10_resized rewritten', None))
+    f1 = next(f for f in norm.body if f.name == 'n13_resized')
+    if 'enumerate' in ast.unparse(f1):
+        problems.append(('side-condition', 'n13_resized rewritten', None))
+    f1 = next(f for f in norm.body if f.name == 'n13_index_only')
+    if 'enumerate' not in ast.unparse(f1):
+        problems.append(('coverage', 'n13_index_only not rewritten', None))
+    f1 = next(f for f in norm.body if f.name == 'n14_ifexp')
+    if ' if x < p else ' in ast.unparse(f1):
+        problems.append(('coverage', 'n14_ifexp not rewritten', None))
     f1 = next(f for f in norm.body if f.name == 'n11_two')
     if 'zip' not in ast.unparse(f1):
         problems.append(('coverage', 'n11_two not rewritten', None))
